@@ -6,6 +6,7 @@ import Mp.Tree
 import Mp.CueWalk
 import Mp.CueAstProofs
 import Mp.CueAstBridge
+import Mp.CueAstFProofs
 /-! C15 — property theorems (proved in the imported modules; statements are checked there, axioms audited here). -/
 #print axioms Deps.closure_sound
 #print axioms Deps.closure_complete
@@ -57,3 +58,6 @@ import Mp.CueAstBridge
 #print axioms Mp.ext_params
 #print axioms Mp.ext_logic
 #print axioms Mp.vTopF_extends_vTop
+#print axioms Mp.finishKeysB_below_root
+#print axioms Mp.keys_below_root_not_blocked
+#print axioms Mp.at_path_below_root_ignores_blocked
